@@ -2,6 +2,7 @@ package main
 
 import (
 	"fmt"
+	"regexp"
 	"sort"
 	"strings"
 )
@@ -333,7 +334,36 @@ func diffSegment(a, b string) (string, string) {
 
 // ---- CLI level ----
 
+// discoverBoolFlags asks the binary itself which boolean flags `compile`
+// accepts beyond the ones this harness knows. A switch a change has added
+// (--clean, --quiet, --force ...) is then exercised too: the relational oracle
+// "alone == together" needs no knowledge of what the switch means.
+func discoverBoolFlags(c *Ctx) []string {
+	o, err := c.sc.RunCLI(&CLIWorld{Argv: []string{"compile", "--help"}, Sched: s0()})
+	if err != nil || o.TimedOut {
+		return nil
+	}
+	re := regexp.MustCompile(`(?m)^\s+(?:-\w, )?--([A-Za-z0-9_-]+)( [A-Za-z]+)?\s\s+`)
+	known := map[string]bool{"help": true}
+	var out []string
+	for _, m := range re.FindAllStringSubmatch(string(o.Stdout), -1) {
+		if m[2] == "" && !known[m[1]] {
+			known[m[1]] = true
+			out = append(out, "--"+m[1])
+		}
+	}
+	if len(out) > 3 {
+		out = out[:3]
+	}
+	return out
+}
+
 func c14CLI(c *Ctx, n int, thorough bool) error {
+	extraFlags := discoverBoolFlags(c)
+	if len(extraFlags) > 0 {
+		c.logf("compile advertises boolean flags this harness does not know: %v — exercised with the relational oracle", extraFlags)
+		c.ev.Extra["extra_boolean_flags_exercised"] = extraFlags
+	}
 	return ParallelFor(n, c.Workers, func(i int) error {
 		seed := SubSeed(c.Seed, "c14cli", i)
 		r := NewRng(seed)
@@ -469,6 +499,61 @@ func c14CLI(c *Ctx, n int, thorough bool) error {
 							lay += "+mixed-abs"
 						}
 						c.candidate14CLI(i, prog, w, ts, t, lay, d)
+					}
+				}
+			}
+			// switches this harness has never heard of: every target alone WITH the
+			// switch versus all targets together WITH the switch, in this layout
+			if layout != "prefix-siblings" {
+				for _, xf := range extraFlags {
+					aloneX := map[string]*CLIOutcome{}
+					okX := true
+					for _, t := range AllTargets {
+						ox, err := c.sc.RunCLI(&CLIWorld{Argv: append(compileArgv([]string{t}, long, sub, abs), xf), Disk0: disk, Sched: s0()})
+						if err != nil {
+							return err
+						}
+						c.ev.Count("cli_worlds", 1)
+						if ox.TimedOut || ox.Exit != 0 {
+							okX = false
+						}
+						aloneX[t] = ox
+					}
+					if !okX {
+						continue
+					}
+					dirs := layoutDirs(layout, AllTargets)
+					w := &CLIWorld{Argv: append(compileArgvDirs(AllTargets, dirs, long, sub, abs), xf), Disk0: disk, Sched: s0()}
+					o, err := c.sc.RunCLI(w)
+					if err != nil {
+						return err
+					}
+					c.ev.AddRecord(&o.Rec)
+					c.ev.Count("cli_worlds", 1)
+					c.ev.Fire("extra_flag_"+xf, 1)
+					if o.TimedOut {
+						continue
+					}
+					for _, t := range AllTargets {
+						d := layoutDiff(aloneX, o, dirs, AllTargets, t)
+						if len(d) == 0 {
+							continue
+						}
+						c.mu.Lock()
+						c.candidates++
+						dup := c.sigSeen["coarse:C14cli-xflag|"+xf+"|"+t]
+						c.sigSeen["coarse:C14cli-xflag|"+xf+"|"+t] = true
+						c.mu.Unlock()
+						if dup {
+							continue
+						}
+						o2, err := c.sc.RunCLI(w)
+						if err != nil || o2.TimedOut || len(layoutDiff(aloneX, o2, dirs, AllTargets, t)) == 0 {
+							continue
+						}
+						rf := &ReplayFile{Property: "C14", Kind: "cli-c14-xflag", RunSeed: c.Seed, Case: i, DSL: text, Target: t, History: AllTargets, CLI: w,
+							Expect: map[string]any{"layout": layout, "flag": xf}}
+						c.report("C14|cli|"+t+"|xflag|"+xf+"|"+layout, fmt.Sprintf("CLI: with the switch %s, the tree written for target %s differs between requesting it alone and requesting all targets in layout %s: %v", xf, t, layout, clipList(d, 2)), d, rf)
 					}
 				}
 			}
